@@ -8,6 +8,7 @@ package tmengine
 // tmjson frames. Copied into a scratch copy of the repository by /verif/check.
 
 import (
+	"encoding/json"
 	"bytes"
 	"context"
 	"fmt"
@@ -34,6 +35,8 @@ import (
 	"github.com/gordian-engine/gordian/tm/tmgossip"
 )
 
+var vzDebugInflight = os.Getenv("VSIM_DEBUG_INFLIGHT") != ""
+
 type vzConfig struct {
 	nVal, nByz       int
 	powers           []uint64
@@ -50,6 +53,7 @@ type vzConfig struct {
 	rDup, rReplay, rEarlyTimer, rCrash, rPartition, rCorrupt, rEquivocate, rStall int
 	rLull                                                                         int // per cent, drawn every 16th step: inputs pause until the nodes are quiet, then C11 currency is judged
 	rCancel                                                                       int // cancel the context of a message handler in flight (a p2p validator deadline)
+	rStarve                                                                       int // one kind of message to one node is delayed for a long stretch (votes overtake proposals, precommits overtake prevotes)
 	netRecover                                                                    bool // H-NET: frames lost to a down node are retransmitted, lagging nodes are fed committed headers of their peers (header sync), partitions heal when nothing else is left to do
 	byzProposals                                                                  bool // H-NET: a Byzantine proposer's header goes out in two versions to two audiences
 	oracles                                                                       map[string]bool
@@ -60,6 +64,7 @@ type vzMsg struct {
 	from, to int
 	kind     string
 	data     []byte
+	key      string // canonical identity of the content (frame bytes depend on map iteration order in the codec); set for proposed headers
 }
 
 type vzTimer struct {
@@ -110,6 +115,10 @@ type vzWorld struct {
 	lastErr       map[string]string   // node ident -> last ERROR log line of its engine
 	replayEnabled bool
 	adv           *vzAdv
+	starveNode    int
+	starveKind    string
+	starveData    string           // if set: only frames with this content key (one proposed header and all its copies from other peers) are delayed
+	starveLeft    int              // steps for which frames of starveKind addressed to starveNode stay in flight
 	lost          map[int][]*vzMsg // frames that were dropped because the recipient was down, per recipient (retransmitted later)
 	syncBusy      map[int]bool     // a header-sync request to that node is in flight
 	nSync         int
@@ -831,6 +840,7 @@ func (w *vzWorld) broadcast(from *vzNode, cm tmcodec.ConsensusMessage, kind stri
 		panic(err)
 	}
 	w.orc.onWireFrame(from, cm, b)
+	b = vzCanonFrame(b)
 	w.mu.Lock()
 	defer w.mu.Unlock()
 	if cm.ProposedHeader != nil {
@@ -845,25 +855,29 @@ func (w *vzWorld) broadcast(from *vzNode, cm tmcodec.ConsensusMessage, kind stri
 			w.seenProposals[k] = append(w.seenProposals[k], string(cm.ProposedHeader.Header.Hash))
 		}
 	}
+	key, altKey := "", ""
+	if cm.ProposedHeader != nil {
+		key = fmt.Sprintf("ph/%x/%x", cm.ProposedHeader.Header.Hash, cm.ProposedHeader.Signature)
+	}
 	var alt []byte
 	if from.byz && w.cfg.byzProposals && cm.ProposedHeader != nil && !bytes.HasSuffix(cm.ProposedHeader.Header.DataID, []byte("-fork")) {
 		// its own proposal: a second header for the same height and round (equivocation);
 		// somebody else's: now and then an out-of-turn proposal with the same content
 		own := cm.ProposedHeader.ProposerPubKey != nil && cm.ProposedHeader.ProposerPubKey.Equal(w.fx.PrivVals[from.idx].Val.PubKey)
 		if w.s.Pct("byz-two-proposals", map[bool]int{true: 70, false: 10}[own]) {
-			alt = w.forkProposal(from, b)
+			alt, altKey = w.forkProposal(from, b)
 		}
 	}
 	for j := range w.nodes {
 		if j == from.idx {
 			continue
 		}
-		data := b
+		data, k := b, key
 		if alt != nil && w.s.Pct("byz-proposal-audience", 50) {
-			data = alt
+			data, k = alt, altKey
 		}
 		w.nextMsg++
-		m := &vzMsg{id: w.nextMsg, from: from.idx, to: j, kind: kind, data: data}
+		m := &vzMsg{id: w.nextMsg, from: from.idx, to: j, kind: kind, data: data, key: k}
 		w.inflight = append(w.inflight, m)
 		if len(w.sentLog) < 4000 {
 			w.sentLog = append(w.sentLog, m)
@@ -872,12 +886,52 @@ func (w *vzWorld) broadcast(from *vzNode, cm tmcodec.ConsensusMessage, kind stri
 	w.s.Probe("sent_" + kind)
 }
 
+// vzCanonFrame re-encodes a tmjson frame canonically. The codec builds the "Proofs" / "Commits"
+// arrays by ranging over Go maps, so the same message encodes to different byte strings from run to
+// run; faults that address a frame by byte offset (bit corruption) would then not replay. The arrays
+// are sorted (their order carries no meaning: they are decoded back into maps) and object keys come
+// out in sorted order; the decoded message is the same.
+func vzCanonFrame(b []byte) []byte {
+	dec := json.NewDecoder(bytes.NewReader(b))
+	dec.UseNumber()
+	var v any
+	if err := dec.Decode(&v); err != nil {
+		return b
+	}
+	var walk func(x any)
+	walk = func(x any) {
+		switch t := x.(type) {
+		case map[string]any:
+			for k, e := range t {
+				walk(e)
+				if l, ok := e.([]any); ok && (k == "Proofs" || k == "Commits") {
+					sort.SliceStable(l, func(i, j int) bool {
+						bi, _ := json.Marshal(l[i])
+						bj, _ := json.Marshal(l[j])
+						return bytes.Compare(bi, bj) < 0
+					})
+				}
+			}
+		case []any:
+			for _, e := range t {
+				walk(e)
+			}
+		}
+	}
+	walk(v)
+	out, err := json.Marshal(v)
+	if err != nil {
+		return b
+	}
+	return out
+}
+
 // forkProposal: the Byzantine proposer signs a second, different header for the same height and
 // round (proposal equivocation); some peers get the one, some the other. Called with w.mu held.
-func (w *vzWorld) forkProposal(from *vzNode, frame []byte) []byte {
+func (w *vzWorld) forkProposal(from *vzNode, frame []byte) ([]byte, string) {
 	var cm tmcodec.ConsensusMessage
 	if err := w.codec.UnmarshalConsensusMessage(frame, &cm); err != nil || cm.ProposedHeader == nil {
-		return nil
+		return nil, ""
 	}
 	ph := *cm.ProposedHeader
 	ph.Header.DataID = append(append([]byte(nil), ph.Header.DataID...), []byte("-fork")...)
@@ -885,13 +939,13 @@ func (w *vzWorld) forkProposal(from *vzNode, frame []byte) []byte {
 	w.fx.SignProposal(context.Background(), &ph, from.idx)
 	b, err := w.codec.MarshalConsensusMessage(tmcodec.ConsensusMessage{ProposedHeader: &ph})
 	if err != nil {
-		return nil
+		return nil, ""
 	}
 	k := fmt.Sprintf("%d/%d", ph.Header.Height, ph.Round)
 	w.seenProposals[k] = append(w.seenProposals[k], string(ph.Header.Hash))
 	w.s.Fault("byzantine_proposal_equivocation")
 	w.s.Logf("fault: n%d proposes a second header %x for %s", from.idx, trunc(string(ph.Header.Hash)), k)
-	return b
+	return vzCanonFrame(b), fmt.Sprintf("ph/%x/%x", ph.Header.Hash, ph.Signature)
 }
 
 // healAll ends every partition and stall (the faults stop); it reports whether anything changed.
@@ -931,7 +985,7 @@ func (w *vzWorld) recoveryActions() []vsimcore.Action {
 				}
 				for _, m := range l[:k] {
 					w.nextMsg++
-					w.inflight = append(w.inflight, &vzMsg{id: w.nextMsg, from: m.from, to: m.to, kind: m.kind, data: m.data})
+					w.inflight = append(w.inflight, &vzMsg{id: w.nextMsg, from: m.from, to: m.to, kind: m.kind, data: m.data, key: m.key})
 				}
 				w.lost[nd.idx] = l[k:]
 				w.mu.Unlock()
@@ -1044,6 +1098,7 @@ func (w *vzWorld) inject(from int, to []int, cm tmcodec.ConsensusMessage, kind s
 	if err != nil {
 		panic(err)
 	}
+	b = vzCanonFrame(b)
 	w.mu.Lock()
 	defer w.mu.Unlock()
 	for _, j := range to {
@@ -1264,8 +1319,23 @@ func (w *vzWorld) run(done func() bool, extra func() []vsimcore.Action) (stalled
 			continue
 		}
 		w.mu.Lock()
+		if vzDebugInflight {
+			var ids []string
+			for _, m := range w.inflight {
+				ids = append(ids, fmt.Sprint(m.id))
+			}
+			s.Logf("      inflight: %s", strings.Join(ids, ","))
+		}
+		held := 0
+		if w.starveLeft > 0 {
+			w.starveLeft--
+		}
 		for i, m := range w.inflight {
 			if w.linkBlocked(m.from, m.to) || w.stalled[m.to] > 0 {
+				continue
+			}
+			if w.starveLeft > 0 && m.to == w.starveNode && m.kind == w.starveKind && (w.starveData == "" || w.starveData == m.key) {
+				held++
 				continue
 			}
 			i, m := i, m
@@ -1316,6 +1386,12 @@ func (w *vzWorld) run(done func() bool, extra func() []vsimcore.Action) (stalled
 				continue
 			}
 		}
+		if len(acts) == 0 && held > 0 {
+			w.mu.Lock()
+			w.starveLeft = 0 // nothing else can run: the delayed frames arrive
+			w.mu.Unlock()
+			continue
+		}
 		if len(acts) == 0 {
 			if w.cfg.netRecover && w.recoveries < 6 && w.healAll() {
 				continue
@@ -1332,7 +1408,7 @@ func (w *vzWorld) run(done func() bool, extra func() []vsimcore.Action) (stalled
 func (w *vzWorld) maybeFault(live []*vzTimer, nActs int) (fireTimerEarly bool) {
 	s := w.s
 	cfg := w.cfg
-	rates := []int{cfg.rDup, cfg.rCorrupt, cfg.rPartition, cfg.rStall, cfg.rCrash, cfg.rEarlyTimer, cfg.rCancel}
+	rates := []int{cfg.rDup, cfg.rCorrupt, cfg.rPartition, cfg.rStall, cfg.rCrash, cfg.rEarlyTimer, cfg.rCancel, cfg.rStarve}
 	sum := 0
 	for _, r := range rates {
 		sum += r
@@ -1361,7 +1437,7 @@ func (w *vzWorld) maybeFault(live []*vzTimer, nActs int) (fireTimerEarly bool) {
 			to = s.Choose("replay-to", len(w.nodes))
 		}
 		w.nextMsg++
-		w.inflight = append(w.inflight, &vzMsg{id: w.nextMsg, from: m.from, to: to, kind: m.kind, data: m.data})
+		w.inflight = append(w.inflight, &vzMsg{id: w.nextMsg, from: m.from, to: to, kind: m.kind, data: m.data, key: m.key})
 		s.Fault("duplicate_or_replay")
 		s.Logf("fault: duplicate m%d as m%d to n%d", m.id, w.nextMsg, to)
 	case 2: // corrupt a frame in flight
@@ -1445,6 +1521,31 @@ func (w *vzWorld) maybeFault(live []*vzTimer, nActs int) (fireTimerEarly bool) {
 		w.mu.Lock()
 	case 6:
 		return len(live) > 0
+	case 8: // one kind of frame to one node is slow for a long stretch
+		if w.starveLeft > 0 {
+			return false
+		}
+		w.starveData = ""
+		var phs []*vzMsg
+		for _, m := range w.inflight {
+			if m.key != "" {
+				phs = append(phs, m)
+			}
+		}
+		if len(phs) > 0 && s.Pct("starve-one-proposal", 60) {
+			// one proposed header, with every copy of it that other peers forward, is slow to reach one node
+			m := phs[s.Choose("starve-which", len(phs))]
+			w.starveNode, w.starveKind, w.starveData = m.to, m.kind, m.key
+			w.starveLeft = 300 + s.Choose("starve-len", 2500)
+			s.Fault("one_proposal_delayed_to_node")
+			s.Logf("fault: m%d (%s) and every copy of it to n%d are delayed for %d steps", m.id, m.kind, m.to, w.starveLeft)
+			break
+		}
+		w.starveNode = s.Choose("starve-node", len(w.nodes))
+		w.starveKind = []string{"ph", "ph", "prevote", "precommit"}[s.Choose("starve-kind", 4)]
+		w.starveLeft = 300 + s.Choose("starve-len", 1500)
+		s.Fault("message_kind_delayed_to_node")
+		s.Logf("fault: %s frames to n%d are delayed for %d steps", w.starveKind, w.starveNode, w.starveLeft)
 	}
 	return false
 }
